@@ -511,7 +511,7 @@ class Recorder:
         self.mod.newton_raphson, self.mod.finalize_iteration = self._nr, self._fin
 
 
-def run_in_coq(run, escape="NoEscape"):
+def run_in_coq(run, escape="NoEscape", post="NoPost"):
     """one recorded Newton execution as a `run_in` literal: the oracle replays the recorded observations"""
     meth = METH.get(run["method"], "OtherMethod")
     nrest = min(len(run["pit_names"]), run["n_filtered"] if run["n_filtered"] is not None else len(run["pit_names"]))
@@ -520,7 +520,7 @@ def run_in_coq(run, escape="NoEscape"):
               cfl(run["tol_res"]), cnat(nrest)))
     obs = clist(["{| o_errs := %s; o_res := %s |}" % (clist([cfl(e) for e in errs]), cfl(r)) for errs, r in run["iters"]])
     return ("{| ri_cfg := %s; ri_orc := (fun st => nth (s_niter st) %s {| o_errs := []; o_res := NaN |}); "
-            "ri_rerun := false; ri_escape := %s |}" % (cfg, obs, escape))
+            "ri_rerun := false; ri_escape := %s; ri_post := %s |}" % (cfg, obs, escape, post))
 
 
 DUMMY_RUN = {"stage": "-", "vars": [], "tols": [], "pit_names": [], "max_iter": 0, "method": "constant",
